@@ -37,7 +37,10 @@ fn chunk_with_lz4_len_equal_to_raw_len() -> Vec<u8> {
 #[tokio::test]
 async fn all_decoders_return_the_serialized_bytes() {
     let special = chunk_with_lz4_len_equal_to_raw_len();
-    let chunks: Vec<Vec<u8>> = vec![noise(777, 42), special, vec![7u8; 5000], noise(1, 5), noise(9, 6), vec![0u8; 1], noise(2048, 9)];
+    // float-like data: compressible, and byte grouping really permutes it (so a bg4-lz4 chunk decoded as plain lz4 differs)
+    let floats: Vec<u8> = (0..3000u32).flat_map(|i| [(i % 251) as u8, ((i / 7) % 13) as u8, 0x80, 0x3f]).collect();
+    let floats_odd: Vec<u8> = floats[..floats.len() - 3].to_vec();
+    let chunks: Vec<Vec<u8>> = vec![noise(777, 42), special, vec![7u8; 5000], floats, noise(1, 5), noise(9, 6), floats_odd, vec![0u8; 1], noise(2048, 9)];
     for scheme in [Some(CompressionScheme::LZ4), Some(CompressionScheme::ByteGrouping4LZ4), None] {
         let mut serialized = Vec::new();
         let mut expected = Vec::new();
